@@ -591,3 +591,22 @@ pub fn rot_pair_strat() -> BoxedStrategy<(Crit, Nam)> {
         .prop_map(|(c, n)| (fix_crit(c, &n), n))
         .boxed()
 }
+
+/// After a panic inside a log call, flexi_logger's thread-local format buffer of this thread
+/// may still hold the interrupted line (it is cleared only after a completed write). One
+/// completed write through a throw-away writer clears it, so that the next case starts clean.
+pub fn cleanse_thread_local() {
+    let sc = crate::util::Scratch::new("cleanse");
+    if let Ok(w) = FileLogWriter::builder(FileSpec::default().directory(&sc.path).basename("c").suppress_timestamp())
+        .format(raw_format)
+        .try_build()
+    {
+        let mut now = DeferredNow::new();
+        let _ = LogWriter::write(
+            &w,
+            &mut now,
+            &log::Record::builder().args(format_args!("x")).level(log::Level::Error).build(),
+        );
+        LogWriter::shutdown(&w);
+    }
+}
